@@ -16,6 +16,7 @@ import pandas as pd
 from rv import core, excelgen, monitors
 from rv.fingerprint import fp, diff
 
+ANCHORS = ['process_beads_table', 'process_samples_table', 'add_beads_stats', 'add_samples_stats', 'generate_histograms_table']      # functions the property is anchored in: never entered => inconclusive
 LEVEL = 'fault_enumeration'
 LEVEL_TEXT = 'Fault enumeration: every assignment of {none} + 14 documented fault kinds to the rows of 1-2 (quick) / 1-3 (thorough) row tables, random larger tables, permutations, bead-row faults and empty tables on the real workflow; healthy rows compared bit for bit with single-row runs. Exhaustive over the assignments for the stated table sizes.'
 TECHNIQUE = 'fault enumeration over row-fault assignments + batch-vs-single-row history checker on the real Excel workflow'
